@@ -4,7 +4,8 @@
 // (SeqNo::MAX). What lsm-tree answers for (key, instant) is its MVCC contract (assumed).
 pub struct ReadEv { pub ks: u64, pub instant: u64, pub scan: bool, pub local: bool }
 pub struct BItemV { pub ks: u64, pub key: Seq<u8>, pub value: Seq<u8>, pub vt: ValueType }
-pub struct RWorld { pub reads: Seq<ReadEv>, pub committed: Seq<Seq<BItemV>> }   // read log; batches handed to WriteBatch::commit
+pub struct RWorld { pub reads: Seq<ReadEv>, pub committed: Seq<Seq<BItemV>>,   // read log; batches handed to WriteBatch::commit
+    pub committed_with: Seq<int> }   // ... and the durability level each was committed with (encoded: U-TX dur_code)
 pub struct AnyTreeR { pub id: Ghost<u64> }
 pub struct IterGuardImpl { pub id: Ghost<int> }   // one item of a scan (identity)
 impl Guard {
